@@ -1,5 +1,5 @@
 """C09 - SAN output is standard; SAN input resolves only to the legal move it describes."""
-from . import sanrules
+from . import sanrules, outcomerules
 
 
 def run(ctx):
@@ -21,3 +21,8 @@ def run(ctx):
     sanrules.searcher_rule(ctx, facts, "S2")
     sanrules.from_move_rule(ctx, facts, "S3")
     sanrules.text_faithful_rule(ctx, facts, "S4")
+    ctx.decided += [
+        "S5 the '#' mark is `is_check && !has_legal_moves` on the position after the move, and has_legal_moves runs every emitter of the full "
+        "generator except castling (a position whose only reply comes from a dropped emitter would be printed as mate) (= C07/O3 re-run)",
+    ]
+    outcomerules.has_legal_moves_rule(ctx, facts, "S5")
